@@ -113,11 +113,14 @@ fn check_proof_context(proof: &ExecutionProof) -> Result<(), VerificationError> 
         && trace_length >= MIN_TRACE_LEN as u64
         && trace_length <= max_trace_length;
 
-    if is_valid_layout && is_valid_length {
+    // a proof must open at least one query position
+    let has_queries = proof.num_unique_queries > 0;
+
+    if is_valid_layout && is_valid_length && has_queries {
         Ok(())
     } else {
         Err(VerificationError::VerifierError(VerifierError::ProofDeserializationError(
-            "trace layout or trace length is not valid for a Miden VM execution trace".into(),
+            "trace layout, trace length or number of queries is not valid for a Miden VM proof".into(),
         )))
     }
 }
